@@ -633,6 +633,24 @@ def catalogue():
     add('focal.focal_stats', dtype='float64', kernel='cross3', shape=[600, 700], stats_funcs=['mean', 'max'], big=True)
     add('focal.hotspots', dtype='float64', kernel='cross3', shape=[600, 700], big=True)
     add('convolution.convolution_2d', dtype='float64', kernel='cross3', shape=[600, 700], big=True)
+    # kernel constructors (no raster argument), repeated and interleaved with the same and other shapes, and focal
+    # results built on freshly constructed kernels
+    add('convolution.annulus_kernel', cellsize_x=1, cellsize_y=1, outer_radius=3, inner_radius=1)
+    add('convolution.circle_kernel', cellsize_x=1, cellsize_y=1, radius=3)
+    add('convolution.circle_kernel', cellsize_x=1, cellsize_y=1, radius=2)
+    add('convolution.annulus_kernel', cellsize_x=1, cellsize_y=1, outer_radius=3, inner_radius=2)
+    add('convolution.annulus_kernel', cellsize_x=1, cellsize_y=1, outer_radius=4, inner_radius=2)
+    add('convolution.circle_kernel', cellsize_x=2, cellsize_y=1, radius=4)
+    add('focal.apply', dtype='float64', kernel='circle:1,1,3', shape=[12, 14])
+    add('convolution.convolution_2d', dtype='float64', kernel='annulus:1,1,3,1', shape=[12, 14])
+    add('focal.focal_stats', dtype='float64', kernel='circle:1,1,2', stats_funcs=['mean', 'sum'], shape=[12, 14])
+    # calls that share ONE raster object per process (share=<name>): a function that leaves something behind on
+    # its input (attrs, coords, dtype) changes what later calls on that object return
+    for fn, kw in [('convolution.calc_cellsize', {}), ('slope.slope', {}), ('focal.hotspots', {'kernel': 'cross3'}),
+                   ('curvature.curvature', {}), ('aspect.aspect', {}), ('classify.quantile', {'k': 3}),
+                   ('focal.mean', {'passes': 1}), ('proximity.proximity', {'target_values': [1], 'max_distance': 4.0})]:
+        add(fn, dtype='float64', share='A', shape=[12, 14], **kw)
+        add(fn, dtype='int32', share='B', shape=[12, 14], backend='dask', **kw)
     for i, d in enumerate(C):
         d['id'] = i
     return C
@@ -640,6 +658,10 @@ def catalogue():
 
 def _kernel(name):
     import numpy as np
+    if name.startswith(('circle:', 'annulus:')):
+        from xrspatial import convolution
+        a = [int(x) for x in name.split(':')[1].split(',')]
+        return convolution.circle_kernel(*a) if name.startswith('circle:') else convolution.annulus_kernel(*a)
     if name == 'cross3':
         return np.array([[0., 1., 0.], [1., 1., 1.], [0., 1., 0.]])
     if name == 'box5x3':
@@ -658,6 +680,19 @@ def _stack3(seed, dtype, shape):
                                 'x': np.arange(w, dtype='float64') * 2.0}, attrs={'res': (2.0, 2.0)})
 
 
+_SHARED = {}
+
+
+def _shared_raster(d):
+    """the one raster object calls with the same share name / dtype / backend / shape are all handed in this process"""
+    k = (d['kw'].get('share'), d['dtype'], d['backend'], tuple(d['shape']), d['seed'])
+    if k not in _SHARED:
+        r = _raster(d['seed'], d['dtype'], d['backend'], tuple(d['shape']))
+        r.attrs = {'crs': 'EPSG:3857'}          # no res / unit attribute: derived from the coordinates
+        _SHARED[k] = r
+    return _SHARED[k]
+
+
 def prepare(d):
     """build the function and its argument objects for one catalogue call -> (f, args, kwargs)"""
     import importlib
@@ -668,6 +703,7 @@ def prepare(d):
     kw = dict(d['kw'])
     kw.pop('big', None)
     stack3 = kw.pop('stack3', False)
+    share = kw.pop('share', None)
     shape = tuple(d['shape'])
     be, dt, seed = d['backend'], d['dtype'], d['seed']
     for k in list(kw):
@@ -685,6 +721,10 @@ def prepare(d):
         kw['zones_ids'] = tuple(kw['zones_ids'])
     if fn == 'bump.bump':
         return f, (12, 10), dict(count=8, spread=2)
+    if fn in ('convolution.circle_kernel', 'convolution.annulus_kernel'):
+        return f, (), kw
+    if share:
+        return f, (_shared_raster(d),), kw
     if fn == 'zonal.crosstab' and stack3:
         return f, (_raster(seed, 'int32' if dt.startswith('float') else dt, be, shape, 'zones'), _stack3(seed + 1, dt, shape)), kw
     if fn in ('zonal.stats', 'zonal.crosstab', 'zonal.crop'):
@@ -748,7 +788,7 @@ def digest(res):
             if type(v).__module__.startswith('dask'):
                 h.update(b'dask')
                 v = v.compute()
-            h.update(repr((tuple(x.dims), sorted(x.coords.keys()))).encode())
+            h.update(repr((tuple(x.dims), sorted(x.coords.keys()), sorted((str(k), repr(v)) for k, v in x.attrs.items()))).encode())
             feed(np.asarray(v))
         elif isinstance(x, xr.Dataset):
             for k in sorted(x.data_vars):
@@ -852,7 +892,12 @@ def gen_sequence(rng, cat, n):
                 a, b = rng.sample(ids, 2)
                 seq += [a, b, a]
                 continue
-        seq.append(rng.choice(small))
+        x = rng.choice(small)
+        if cat[x]['kw'].get('share'):
+            grp = [j for j in small if cat[j]['kw'].get('share') == cat[x]['kw']['share']]
+            seq += [rng.choice(grp) for _ in range(3)]
+            continue
+        seq.append(x)
     seq = seq[:n]
     # keep the number of proximity-family calls (each re-JITs its closure, ~1 s) bounded
     cnt = 0
@@ -976,7 +1021,15 @@ def run(ctx):
     bump = [d['id'] for d in cat if d['fn'] == 'bump.bump'][0]
     perl = [d['id'] for d in cat if d['fn'] == 'perlin.perlin'][0]
     xt3 = [d['id'] for d in cat if d['fn'] == 'zonal.crosstab' and d['kw'].get('stack3')]
-    seqs[0] = seqs[0][:len(seqs[0]) - 5] + [perl, bump, perl] + xt3
+    def ids(fn, **kw):
+        return [d['id'] for d in cat if d['fn'] == fn and all(d['kw'].get(k) == v for k, v in kw.items())]
+    kern = ids('convolution.annulus_kernel', outer_radius=3, inner_radius=1) + ids('convolution.circle_kernel', cellsize_x=1, radius=3) + \
+        ids('focal.apply', kernel='circle:1,1,3') + ids('convolution.annulus_kernel', outer_radius=3, inner_radius=2) + \
+        ids('convolution.convolution_2d', kernel='annulus:1,1,3,1')
+    sh = rng.choice(['A', 'B'])
+    before = ids('convolution.calc_cellsize', share=sh) + ids('slope.slope', share=sh)
+    shared = before + ids('focal.hotspots', share=sh) + before + ids('curvature.curvature', share=sh)
+    seqs[0] = seqs[0][:max(0, len(seqs[0]) - 16)] + [perl, bump, perl] + xt3 + kern + shared
     run_sequences(ctx, seqs, threads)
     ctx.exhaustive = False
     # ./check only widens the search when NO oracle violation was seen; the known bump finding is always seen, so
